@@ -539,6 +539,9 @@ def iso_check(seed, tier, wd):
             A = T["A"]; need = A + A * 5000 // 10**6
             pl.send(patched(T["ok"], "A1", 1, need, need, 1000 + 34 + 1008 + 500, 70000))
             time.sleep(0.4)
+            # a block arrives while A is held (its notification handler must not come between B and its answer)
+            pl.send({"jsonrpc": "2.0", "method": "block_added", "params": {"block_added": {"hash": "00" * 32, "height": 1001}}})
+            time.sleep(0.2)
             pl.send(patched(T["other"], "B1", 2, need, need, 1000 + 34 + 1008 + 500, 70000))
             fr = pl.read_frames(lambda f: any(ok and o.get("id") == "B1" for ok, o in f), 15.0)
             waits = len([c for c in pl.node.calls if c[0] == "waitsendpay"])
@@ -564,6 +567,8 @@ def iso_check(seed, tier, wd):
             for k in range(nA):
                 pl.send(patched(T["ok"], "A%d" % k, k + 1, share, need, 1000 + 34 + 1008 + 500, 70000))
             time.sleep(0.4)
+            pl.send({"jsonrpc": "2.0", "method": "block_added", "params": {"block_added": {"hash": "00" * 32, "height": 1001}}})
+            time.sleep(0.2)
             pl.send(patched(T["other"], "B1", 50, need, need, 1000 + 34 + 1008 + 500, 70000))
             fr = pl.read_frames(lambda f: any(ok and o.get("id") == "B1" for ok, o in f), 15.0)
             fr = [(ok, o) for ok, o in fr if not (ok and isinstance(o.get("id"), str) and o.get("id", "").startswith("A"))]
